@@ -256,17 +256,17 @@ def both_sides(ctx):
     # inner eq: declared Some and recorded None => false
     n_inner = 0
     for b in f.user_bodies():
-        if not b.coroutine or b.ret != "bool" or b.argc != 2:
+        if not b.coroutine or b.ret != "bool":
             continue
         fn = ctx.r.fn_of(b)
-        if fn.argc == 2 and "Option<&" in fn.locals[1]["ty"] and "Option<&" in fn.locals[2]["ty"] and "ResourcesState" in fn.locals[1]["ty"] + fn.locals[2]["ty"]:
+        # the parameters are recognised by their types (there may be others, e.g. a label for log messages)
+        res_field = [l.get("name") for l in fn.locals[1:fn.argc + 1] if re.search(r"^std::option::Option<&[\w:]*Resources>$", l["ty"])]
+        st_field = [l.get("name") for l in fn.locals[1:fn.argc + 1] if re.search(r"^std::option::Option<&[\w:]*ResourcesState>$", l["ty"])]
+        if len(res_field) == 1 and len(st_field) == 1:
             n_inner += 1
             bad = []
             for p in enumerate_paths(b):
                 facts = path_facts(b, p)
-                # which param is the declared resources: the one typed Option<&Resources>
-                res_field = [l.get("name") for l in fn.locals[1:3] if "ResourcesState" not in l["ty"]]
-                st_field = [l.get("name") for l in fn.locals[1:3] if "ResourcesState" in l["ty"]]
                 decl_some = any(k == "variant" and v == ("Some",) and origin_matches(o, lambda x: x[0] == "field" and x[1][-1:] == tuple(res_field)) for (k, v, o, e) in facts)
                 rec_none = any(k == "variant" and v == ("None",) and origin_matches(o, lambda x: x[0] == "field" and x[1][-1:] == tuple(st_field)) for (k, v, o, e) in facts)
                 if decl_some and rec_none and not is_const_ret(ret_origins(b, p), "false"):
@@ -659,9 +659,15 @@ def delete_before_script(ctx):
       delete (which the runner `?`-checks before starting the script), not a dropped value""", "K5", floor=1)
 def delete_errors_propagate(ctx):
     dels, sites = state_delete_fns(ctx)
+    R = runner(ctx)
+    sa = script_await(ctx, R)
+    used = {callee_base(t) for (cbb, t, a) in awaited_local_calls(R, set(dels)) if R.dominates(cbb, sa.into_bb)}   # the delete the runner performs before the script
+    ctx.need(used, "state delete awaited by the incremental runner")
     n = 0
     for (b, bb, t) in sites:
         raw = ctx.f.bodies[b.origin(bb)]
+        if ctx.r.fn_of(ctx.r.outer_fn(raw)).name not in used:
+            continue   # another removal of the state file (e.g. a best-effort clean-up of a partial write in the saver) is not the discard-before-build
         rbb = b.blocks[bb].get("orig_id", bb) if b.origin(bb) != b.name else bb
         rt = raw.term(rbb)
         if rt["k"] != "call" or rt.get("dest") is None:
@@ -820,8 +826,31 @@ def panic_sites(f, body, table_mode=False):
             if kind:
                 out.append((blk["id"], kind, decl[:120], bool(t.get("exp"))))
         elif t["k"] == "assert":
+            if _guarded_subtraction(body, blk["id"], t["msg"]):
+                continue
             out.append((blk["id"], "assert", t["msg"][:60], False))
     return out
+
+
+def _guarded_subtraction(body, bb, msg):
+    """the overflow check of `a - K` that sits under `if a > K` (or `a >= K`): cannot fire"""
+    m = re.match(r"Overflow\(Sub, [^,]+, (?:const )?([\w:]+)", msg or "")
+    if not m:
+        return False
+    k = m.group(1)
+    for e in body.edges:
+        l = e.label
+        if not (l and l[0] == "bool" and l[2] is not None and bb in body.dominated_by_edge(e)):
+            continue
+        for d in bool_atom_desc(body, l[2]):
+            if d[0] != "binop":
+                continue
+            def is_k(side):
+                return any(isinstance(y, tuple) and y and y[0] == "const" and (str(y[1]).startswith(k) or k.startswith(str(y[1])[:len(k)]) or str(y[1]).split("::")[-1].startswith(k.split("::")[-1])) for y in side)
+            if (d[1] in ("Gt", "Ge") and is_k(d[3]) and l[1] is True) or (d[1] in ("Lt", "Le") and is_k(d[2]) and l[1] is True) or \
+               (d[1] in ("Le", "Lt") and is_k(d[3]) and l[1] is False) or (d[1] in ("Ge", "Gt") and is_k(d[2]) and l[1] is False):
+                return True
+    return False
 
 
 @rule("C05.NO-PANIC", ["C05"], """no panic-capable site (unwrap/expect/index/assert/panic) in the functions that read, delete and save the recorded state""", "K9", floor=0)
